@@ -182,6 +182,9 @@ def run_C02(run):
     # (5) and/or over multi-step operands with function-valued / positional nested predicates (merge rewrite)
     run.gen_and_replay("MC_Expr", consts(BASE_EXPR, Family="C02merge", MaxNodes=4 if q else 5, UseCat=True),
                        name="preds-merge-operands", kind="sel-set")
+    # (5b) predicates that are two-step descendant/child paths (descendant-over-descendant inside a predicate)
+    run.gen_and_replay("MC_Expr", consts(BASE_EXPR, Family="C02desc2", MaxNodes=4 if q else 5, UseCat=True, CatIds=SMALL_CAT if q else ALL_CAT),
+                       name="preds-two-step-paths", kind="sel-set")
     # (6) Flow B: seeded documents up to 14 nodes, paths of up to 3 steps carrying up to 3 predicates of nesting depth 2
     tr = run.drive("preds", 2500 if q else 40000, extra=["-nodes", "14"])
     run.validate_batch(tr, "preds-flowB")
